@@ -698,3 +698,22 @@ fn test_dontset_values() {
     assert!(msg.options.find_option(icmppkt::DNSSL).is_empty());
     assert!(msg.options.find_option(icmppkt::CAPTIVE_PORTAL).is_empty());
 }
+
+/// Verification hooks (built only with `--cfg erbium_verif`): the private pure
+/// advertisement builder and the crate-private interface configuration types.
+#[cfg(erbium_verif)]
+pub mod verif {
+    pub use super::config::{Interface, Pref64, Prefix};
+    pub use crate::config::ConfigValue;
+
+    pub fn build_announcement_pure(
+        config: &crate::config::Config,
+        intf: &Interface,
+        ll: Option<[u8; 6]>,
+        mtu: Option<u32>,
+        self6: std::net::Ipv6Addr,
+        lifetime: std::time::Duration,
+    ) -> super::icmppkt::RtrAdvertisement {
+        super::RaAdvService::build_announcement_pure(config, intf, ll, mtu, self6, lifetime)
+    }
+}
